@@ -11,6 +11,9 @@ import (
 
 func init() { register("C12", c12) }
 
+// c12root != "": load the package through a recursive request for this root
+var c12root = ""
+
 type c12expr struct {
 	goBuild string   // text after //go:build
 	legacy  []string // equivalent // +build lines (nil: none written)
@@ -37,6 +40,12 @@ func c12(g *Gen) {
 	n := g.N(40, 800)
 	for i := 0; i < n; i++ {
 		path := fmt.Sprintf("ex.test/bt%d", i)
+		c12root = ""
+		if i%3 == 2 {
+			// the input is given as root/... and the package sits two levels below the root
+			c12root = fmt.Sprintf("ex.test/btr%d", i)
+			path = c12root + "/sub/deep"
+		}
 		files := map[string]string{}
 		var names []string
 		files["base.go"] = "package bt\n\n// Base doc\ntype Base struct{}\n"
@@ -100,6 +109,9 @@ func c12(g *Gen) {
 			}
 			sort.Strings(vis)
 			cls := []string{"visibility", fmt.Sprintf("tags-%d", len(tags))}
+			if c12root != "" {
+				cls = append(cls, "recursive-input")
+			}
 			if len(vis) > 1 {
 				cls = append(cls, "some-file-visible")
 			}
@@ -109,6 +121,7 @@ func c12(g *Gen) {
 			g.Emit("C12.visible", list(atoms(tags), list(fsx...)), atoms(vis), cls...)
 		}
 	}
+	c12root = ""
 	c12regen(g)
 }
 
